@@ -335,6 +335,12 @@ class ConcurrentTaskSet : public TaskSetBase {
           pool_.schedule(packageTask(std::forward<F>(f)), ForceQueuingTag());
           return;
         }
+        // The pool is overloaded, so f would run on this thread: like every other path, do not start
+        // it once the set has been cancelled.
+        DISPENSO_VERIF_POINT("TsCtsLoadCancel2", this);
+        if (DISPENSO_EXPECT(canceled(), false)) {
+          return;
+        }
         detail::InlineDepthGuard depthGuard;
         f();
         return;
@@ -478,6 +484,12 @@ class ConcurrentTaskSet : public TaskSetBase {
           curWork > pool_.poolLoadFactor_.load(std::memory_order_relaxed)) {
         if (!detail::PerPoolPerThreadInfo::canInlineSchedule()) {
           pool_.schedulePlaced(packageTask(std::forward<F>(f)), ForceQueuingTag());
+          return;
+        }
+        // The pool is overloaded, so f would run on this thread: like every other path, do not start
+        // it once the set has been cancelled.
+        DISPENSO_VERIF_POINT("TsCtsLoadCancel2", this);
+        if (DISPENSO_EXPECT(canceled(), false)) {
           return;
         }
         detail::InlineDepthGuard depthGuard;
